@@ -79,8 +79,8 @@ def discover_inventory(rep):
     return inv, path
 
 
-def enumerate_histories(rep, nc, length, alphabet, tag, inv_file=None, inv_sub="all"):
-    env = {"ALPHABET": alphabet}
+def enumerate_histories(rep, nc, length, alphabet, tag, inv_file=None, inv_sub="all", novel=False):
+    env = {"ALPHABET": alphabet, "NOVEL": "1" if novel else "0"}
     if inv_file:
         env.update({"INV_FILE": inv_file, "INV_SUB": inv_sub})
     res = tlc.run(rep.pid, "C12", ENUM_CFG % consts(nc, length, [1], []), env=env,
@@ -152,10 +152,13 @@ def run(rep):
     limits = None
     for nc, length, alpha, sub in plan:
         hs, limits = enumerate_histories(rep, nc, length, alpha, "enum_%s_%d" % (alpha, length),
-                                         inv_file=inv_file if sub else None, inv_sub=sub or "all")
+                                         inv_file=inv_file if sub else None, inv_sub=sub or "all",
+                                         novel=(rep.tier == "quick" and alpha in ("redecl", "redecl1")))
         if len(hs) < 1000:
             raise Machinery("enumeration produced only %d histories" % len(hs))
         what = ("(inventory target x late creation) x all histories" if sub else "all histories")
+        if rep.tier == "quick" and alpha in ("redecl", "redecl1"):
+            what = "all histories with at least one re-declaration (the others are in the base-catalogue space)"
         rep.spaces.append({"space": "%s of %d events over %d context(s), alphabet %s%s (TLC-enumerated; "
                                     "every shorter history is a probed prefix)"
                                     % (what, length, nc, alpha, ", inventory sub-grid %s" % sub if sub else ""),
@@ -171,7 +174,7 @@ def run(rep):
     T['enumerate'] = round(time.time() - t0, 1)
     T['replay'] = T['validate'] = 0.0
     # ---- replay on real contexts (probing everything after every step), then C->S trace validation; in chunks ----
-    CH = 60000
+    CH = 80000                       # the quick tier is one chunk
     ntr = nev = 0
     keep = None                      # an accepted trace for the binding self-test
     for b in range(0, len(cases), CH):
